@@ -502,8 +502,49 @@ def shrink_all(ctx, reps, max_rounds=40):
 
 
 # ---------------------------------------------------------------------------- streams
+def witnesses():
+    """The witnesses of the `cex_*` theorems and of `shadowing_examples` (Props/C10.lean), rebuilt with
+    the Builder; they go through the same correspondence and oracle as everything else, which replays
+    each counterexample on the real code on every run."""
+    B = G.Builder()
+    lit, ref, bind, inh = B.lit, B.ref, B.bind, B.inh
+    yield "with_let", B.let([bind("a", lit())], B.with_(B.set([bind("a", lit())]), B.set([bind("x", ref("a"))]))), ("x",)
+    B = G.Builder(); lit, ref, bind, inh = B.lit, B.ref, B.bind, B.inh
+    yield "with_env_recursive", B.with_(B.set([bind("a", ref("b")), bind("b", lit())]), B.set([bind("x", ref("a"))])), ("x",)
+    B = G.Builder(); lit, ref, bind, inh = B.lit, B.ref, B.bind, B.inh
+    yield "let_on_identifier", B.let([bind("a", lit())], B.set([bind("x", B.let([bind("a", lit())], ref("a")))])), ("x",)
+    B = G.Builder(); lit, ref, bind, inh = B.lit, B.ref, B.bind, B.inh
+    yield "inherit_in_rec_by_key", B.let([bind("c", lit())], B.set([inh(["c"])], rec=True)), ("c",)
+    B = G.Builder(); lit, ref, bind, inh = B.lit, B.ref, B.bind, B.inh
+    yield "formals_leak", B.app(B.paren(B.lamP([("req", "x"), ("opt", "a", lit())], ref("x"))),
+                                B.set([bind("x", ref("a"))])), ("x",)
+    B = G.Builder(); lit, ref, bind, inh = B.lit, B.ref, B.bind, B.inh
+    yield "document_rec_duplicates_lets", B.let([bind("a", ref("b"))], B.let([bind("b", lit())], B.set(
+        [bind("k", B.set([bind("x", ref("a"))]))], rec=True))), ("k", "x")
+    B = G.Builder(); lit, ref, bind, inh = B.lit, B.ref, B.bind, B.inh
+    yield "lambda_route", B.lamP([("opt", "a", lit())], B.set([bind("x", ref("a"))])), ("x",)
+    B = G.Builder(); lit, ref, bind, inh = B.lit, B.ref, B.bind, B.inh
+    yield "call_route", B.let([bind("b", lit())], B.app(ref("f"), B.set([bind("x", ref("b"))]))), ("x",)
+    B = G.Builder(); lit, ref, bind, inh = B.lit, B.ref, B.bind, B.inh
+    yield "paren_route", B.let([bind("c", lit())], B.paren(B.set([bind("y", ref("c"))]))), ("y",)
+    B = G.Builder(); lit, ref, bind, inh = B.lit, B.ref, B.bind, B.inh
+    yield "inherit_loop", B.set([B.inhf(["a"], ref("a"))]), ("a",)
+    B = G.Builder(); lit, ref, bind, inh = B.lit, B.ref, B.bind, B.inh
+    shadow = B.let([bind("a", lit())], B.set([bind("k", B.set([
+        bind("a", lit()),
+        bind("j", B.let([bind("a", lit())], B.set([
+            bind("x", ref("a")),
+            bind("m", B.set([bind("a", lit()), bind("y", ref("a"))]))]))),
+        bind("z", ref("a")),
+        bind("i", B.set([inh(["a"])]))], rec=True))]))
+    for path in (("k", "j", "x"), ("k", "j", "m", "y"), ("k", "z"), ("k", "i", "a")):
+        yield "shadowing", shadow, path
+
+
 def program_stream(ctx):
     """(label, program, paths or None)"""
+    for name, prog, path in witnesses():
+        yield ("witness:" + name, prog, [path])
     if ctx.quick:
         seqs = G.sequences(3, 2)
         n_random = 4000
@@ -602,6 +643,7 @@ def observe(ctx: fw.Ctx, stream, correspond: bool):
 
     bad = 0
     deviations = []
+    changed = []
     for (kind, label, prog, p, real), rep in zip(meta, replies):
         if rep[0] != "ok":
             ctx.tie_break("correspondence", f"driver rejected {label}: {rep}", request=G.render(prog))
@@ -625,6 +667,12 @@ def observe(ctx: fw.Ctx, stream, correspond: bool):
             if bad <= 5:
                 ctx.tie_break("correspondence", f"resolve disagrees on {G.render(prog)!r} path {list(p)}",
                               request={"text": G.render(prog), "path": list(p)}, implementation=real, model=model)
+            # the code no longer does what the model (= the recorded behaviour, findings included) does.
+            # Where it now ALSO deviates from Nix's scoping in a way the recorded behaviour did not, that is
+            # a failing input of its own, whatever root-cause class the input belongs to.
+            if not agrees(real, spec) and (agrees(model, spec) or clause_of(model, spec) != clause_of(real, spec)
+                                           or (real[0] == "bound" and real != model)):
+                changed.append((label, prog, p, real, spec, rep[4], model))
         feats = has_feature(prog)
         ctx.case({"text": G.render(prog), "path": list(p)}, nontrivial=len(feats & {"let", "rec", "with", "inherit", "inherit-from", "lambda"}) >= 2)
         ctx.count("real:" + (real[0] if real[0] == "bound" else ":".join(real)))
@@ -641,6 +689,20 @@ def observe(ctx: fw.Ctx, stream, correspond: bool):
             deviations.append((label, prog, p, real, spec, rep[4]))
     ctx.count("correspondence_disagreements", bad)
     ctx.count("deviations_from_spec", len(deviations))
+
+    if changed:
+        changed.sort(key=lambda d: prog_size(d[1]))
+        seen_c = set()
+        for label, prog, p, real, spec, causes, model in changed:
+            k = (clause_of(real, spec), causes[0] if causes else "none")
+            if k in seen_c or len(seen_c) >= 5:
+                continue
+            seen_c.add(k)
+            ctx.fail({"clause": k[0], "cause": k[1] + " (behaviour changed)"},
+                     {"text": G.render(prog), "path": list(p), "program": G.sexp(prog)},
+                     f"`{G.render(prog)}` path {list(p)}: {CLAUSE_WHAT[k[0]]}: the code yields {real}, Nix scoping "
+                     f"designates {spec}; the recorded behaviour (model) was {model}", cases=1)
+    ctx.count("changed_for_the_worse", len(changed))
 
     # classify on SHRUNK inputs: the smallest representative of every raw key (clause, causes) is
     # shrunk to a minimal deviating program; the finding key is (clause, first root-cause class)
